@@ -78,6 +78,9 @@ Definition prim_sig (p : prim) : list ty * ty :=
   | PUnbox d n => ([TBox d n], ty_of_nty n)
   | PBump d n | PTwice d n => ([TBox d n], TBox d n)
   | PScale d n => ([TBox d n; ty_of_nty n], TBox d n)
+  | PANew b => ([TMI; ty_of_bty b], TArr b)
+  | PALen b => ([TArr b], TMI)
+  | PAGet b => ([TArr b; TMI], ty_of_bty b)
   end.
 
 (* ---- overload resolution ---- *)
@@ -129,7 +132,10 @@ Fixpoint eff (fs : list fundef) (e : expr) : bool :=
   | EAnd a b | EOr a b => (eff fs a || eff fs b)%bool
   | ESeq ss e => match ss with [] => eff fs e | _ => true end
   | EMac _ e => eff fs e
-  | EListLit _ es => existsb (eff fs) es
+  | EListLit _ es | ERec _ es | EArrLit _ es => existsb (eff fs) es
+  | EField _ e | EUni _ _ e | ECase _ e | EUGet _ e => eff fs e
+  | EClo _ _ _ caps => existsb (eff fs) caps       (* forming a function value has no effect *)
+  | EApp _ _ => true                             (* applying one may *)
   end.
 
 Fixpoint stable (cx : ctx) (e : expr) : bool :=
@@ -143,11 +149,48 @@ Fixpoint stable (cx : ctx) (e : expr) : bool :=
   | EAnd a b | EOr a b => (stable cx a && stable cx b)%bool
   | ESeq _ _ => false
   | EMac _ e => stable cx e
-  | EListLit _ es => forallb (stable cx) es
+  | EListLit _ es | ERec _ es | EArrLit _ es => forallb (stable cx) es
+  | EField _ e | EUni _ _ e | ECase _ e | EUGet _ e => stable cx e
+  | EClo _ _ _ caps => forallb (stable cx) caps
+  | EApp _ _ => false
   end.
 
 Definition mac_nty (m : mac) : nty := match m with MDbl n | MSqr n => n end.
 Definition mac_prim (m : mac) : prim := match m with MDbl n => PAdd n | MSqr n => PMul n end.
+
+(* ---- records and arrays without aliasing ----
+   A Record (and an Array) value is an updatable object (langtdef.tex:237): `r.f := v` is seen through every
+   name bound to the same object.  The subset keeps every UPDATABLE variable the only name of
+   its record: what is stored into a variable, returned, or yielded by an exit must be a
+   FRESH record (a constructor, a call result, or an `if` of such); what is passed as an
+   argument or bound to a constant may also be an immutable name (constant, parameter, loop
+   variable), whose record is never updated.  So value semantics and reference semantics
+   coincide on the subset.                                                              *)
+Definition is_rec (t : ty) : bool := match t with TRec _ | TArr _ => true | _ => false end.
+
+Fixpoint fresh (e : expr) : bool :=
+  match e with
+  | ERec _ _ | ECall _ _ | EArrLit _ _ | EPrim (PANew _) _ => true
+  | EIf _ a b => (fresh a && fresh b)%bool
+  | _ => false
+  end.
+
+Definition sharable (cx : ctx) (e : expr) : bool :=
+  (fresh e
+   || match e with
+      | EGlob k => match nth_error (cG cx) k with Some (_, false) => true | _ => false end
+      | ELoc k => match nth_error (cL cx) k with Some (_, false) => true | _ => false end
+      | _ => false
+      end)%bool.
+
+(* e of type t may be stored / returned *)
+Definition store_ok (t : ty) (e : expr) : bool := (negb (is_rec t) || fresh e)%bool.
+
+Fixpoint args_sharable (cx : ctx) (es : list expr) (ts : list ty) : bool :=
+  match es, ts with
+  | e :: es', t :: ts' => ((negb (is_rec t) || sharable cx e) && args_sharable cx es' ts')%bool
+  | _, _ => true
+  end.
 
 Definition ordered_args (cx : ctx) (es : list expr) : bool :=
   let n := List.length (filter (eff (cF cx)) es) in
@@ -193,7 +236,7 @@ Fixpoint infer (cx : ctx) (e : expr) {struct e} : option ty :=
       end
   | ECall name args =>
       match map_opt (infer cx) args with
-      | Some tys => if ordered_args cx args then check_call cx name tys else None
+      | Some tys => if (ordered_args cx args && args_sharable cx args tys)%bool then check_call cx name tys else None
       | None => None
       end
   | EIf c a b =>
@@ -219,6 +262,67 @@ Fixpoint infer (cx : ctx) (e : expr) {struct e} : option ty :=
                   then Some t else None
       | None => None
       end
+  | EArrLit b es =>
+      match map_opt (infer cx) es with
+      | Some tys => if (forallb (fun t => ty_eqb t (ty_of_bty b)) tys && ordered_args cx es)%bool
+                    then Some (TArr b) else None
+      | None => None
+      end
+  | ERec fs es =>
+      match map_opt (infer cx) es with
+      | Some tys => if (tys_eqb tys (map ty_of_bty fs) && ordered_args cx es)%bool then Some (TRec fs) else None
+      | None => None
+      end
+  | EField i e' =>
+      match infer cx e' with
+      | Some (TRec fs) => match nth_error fs i with Some b => Some (ty_of_bty b) | None => None end
+      | _ => None
+      end
+  (* A function expression captures variables, not values (langenvs.tex:394-418); the subset
+     only captures immutable names and literals ([stable]), so the two coincide, and forms no
+     function value inside a loop (the `for` variable would be captured).  The body is a call of
+     a file-level function that sees no global (fd_nglob = 0), so the value can be applied
+     anywhere.                                                                              *)
+  | EClo name ps r caps =>
+      match map_opt (infer cx) caps with
+      | Some tys =>
+          if (forallb (stable cx) caps && negb (cLoop cx)
+              && forallb (fun t => match bty_of_ty t with Some _ => true | None => false end) tys)%bool
+          then match resolve (cF cx) name (tys ++ map ty_of_bty ps) with
+               | Some (j, fd) =>
+                   if (Nat.ltb j (cNF cx) && Nat.eqb (fd_nglob fd) 0)%bool
+                   then match bty_of_ty (fd_ret fd) with
+                        | Some r' => if bty_eqb r r' then Some (TFun ps r) else None
+                        | None => None
+                        end
+                   else None
+               | None => None
+               end
+          else None
+      | None => None
+      end
+  | EApp fn args =>
+      match infer cx fn, map_opt (infer cx) args with
+      | Some (TFun ps r), Some tys =>
+          if (tys_eqb tys (map ty_of_bty ps) && ordered_args cx (fn :: args) && negb (cPure cx))%bool
+          then Some (ty_of_bty r) else None
+      | _, _ => None
+      end
+  | EUni fs i e' =>
+      match nth_error fs i with
+      | Some b => if opt_ty_eqb (infer cx e') (ty_of_bty b) then Some (TUni fs) else None
+      | None => None
+      end
+  | ECase i e' =>
+      match infer cx e' with
+      | Some (TUni fs) => if Nat.ltb i (List.length fs) then Some TBool else None
+      | _ => None
+      end
+  | EUGet i e' =>
+      match infer cx e' with
+      | Some (TUni fs) => match nth_error fs i with Some b => Some (ty_of_bty b) | None => None end
+      | _ => None
+      end
   | EListLit b es =>
       match map_opt (infer cx) es with
       | Some tys => if (forallb (fun t => ty_eqb t (ty_of_bty b)) tys && ordered_args cx es)%bool
@@ -231,14 +335,44 @@ with check_stmt (cx : ctx) (s : stmt) {struct s} : bool :=
   | SAssG k e =>
       (negb (cPure cx) && Nat.ltb k (cNG cx)
        && match nth_error (cG cx) k with
-          | Some (t, true) => opt_ty_eqb (infer cx e) t
+          | Some (t, true) => (opt_ty_eqb (infer cx e) t && store_ok t e)%bool
           | _ => false
           end)%bool
   | SAssL k e =>
       match nth_error (cL cx) k with
-      | Some (t, true) => opt_ty_eqb (infer cx e) t
+      | Some (t, true) => (opt_ty_eqb (infer cx e) t && store_ok t e)%bool
       | _ => false
       end
+  (* r.f := e is set!(r, f, e): r and e are arguments of one call, evaluated in no defined
+     order (langfuns.tex:211), so e must be free of effects (it could re-assign r)          *)
+  | SSetG k i e =>
+      (negb (cPure cx) && negb (eff (cF cx) e) && Nat.ltb k (cNG cx)
+       && match nth_error (cG cx) k with
+          | Some (TRec fs, true) =>
+              match nth_error fs i with Some b => opt_ty_eqb (infer cx e) (ty_of_bty b) | None => false end
+          | _ => false
+          end)%bool
+  | SSetL k i e =>
+      (negb (eff (cF cx) e)
+       && match nth_error (cL cx) k with
+          | Some (TRec fs, true) =>
+              match nth_error fs i with Some b => opt_ty_eqb (infer cx e) (ty_of_bty b) | None => false end
+          | _ => false
+          end)%bool
+  (* a.(i) := e is set!(a, i, e): i and e free of effects (unspecified argument order) *)
+  | SSetIG k i e =>
+      (negb (cPure cx) && negb (eff (cF cx) i) && negb (eff (cF cx) e) && Nat.ltb k (cNG cx)
+       && opt_ty_eqb (infer cx i) TMI
+       && match nth_error (cG cx) k with
+          | Some (TArr b, true) => opt_ty_eqb (infer cx e) (ty_of_bty b)
+          | _ => false
+          end)%bool
+  | SSetIL k i e =>
+      (negb (eff (cF cx) i) && negb (eff (cF cx) e) && opt_ty_eqb (infer cx i) TMI
+       && match nth_error (cL cx) k with
+          | Some (TArr b, true) => opt_ty_eqb (infer cx e) (ty_of_bty b)
+          | _ => false
+          end)%bool
   | SPrint es =>
       (negb (cPure cx)
        && match map_opt (infer cx) es with Some _ => true | None => false end
@@ -254,21 +388,21 @@ with check_stmt (cx : ctx) (s : stmt) {struct s} : bool :=
        && ordered_args cx [lo; hi]
        && forallb (check_stmt (in_loop (push_local cx (TMI, false)))) body)%bool
   | SForIn b l body =>
-      (opt_ty_eqb (infer cx l) (TList b)
+      ((opt_ty_eqb (infer cx l) (TList b) || opt_ty_eqb (infer cx l) (TArr b))
        && forallb (check_stmt (in_loop (push_local cx (ty_of_bty b, false)))) body)%bool
   | SBreak | SIterate => cLoop cx
-  | SReturn e => match cRet cx with Some t => opt_ty_eqb (infer cx e) t | None => false end
+  | SReturn e => match cRet cx with Some t => (opt_ty_eqb (infer cx e) t && store_ok t e)%bool | None => false end
   | SExit c s' =>
       (match cSeq cx with None => true | Some _ => false end
        && opt_ty_eqb (infer cx c) TBool && negb (is_exit s') && check_stmt cx s')%bool
   | SExitV c e =>
       match cSeq cx with
-      | Some t => (opt_ty_eqb (infer cx c) TBool && opt_ty_eqb (infer cx e) t)%bool
+      | Some t => (opt_ty_eqb (infer cx c) TBool && opt_ty_eqb (infer cx e) t && store_ok t e)%bool
       | None => false
       end
   | SCall name args =>
       match map_opt (infer cx) args with
-      | Some tys => (ordered_args cx args
+      | Some tys => (ordered_args cx args && args_sharable cx args tys
                      && match check_call cx name tys with Some _ => true | None => false end)%bool
       | None => false
       end
@@ -288,7 +422,8 @@ Definition check_block (cx : ctx) (ss : list stmt) : bool := forallb (check_stmt
 Fixpoint check_locals (cx : ctx) (ls : list (ty * expr)) : option ctx :=
   match ls with
   | [] => Some cx
-  | (t, e) :: r => if opt_ty_eqb (infer cx e) t then check_locals (push_local cx (t, true)) r else None
+  | (t, e) :: r => if (opt_ty_eqb (infer cx e) t && store_ok t e)%bool
+                   then check_locals (push_local cx (t, true)) r else None
   end.
 
 Definition fun_ctx (G : list (ty * bool)) (F : list fundef) (j : nat) (fd : fundef) : ctx :=
@@ -298,7 +433,8 @@ Definition fun_ctx (G : list (ty * bool)) (F : list fundef) (j : nat) (fd : fund
 Definition check_fun (G : list (ty * bool)) (F : list fundef) (j : nat) (fd : fundef) : bool :=
   match check_locals (fun_ctx G F j fd) (fd_locals fd) with
   | Some cx => (check_block (with_seq cx (Some (fd_ret fd))) (fd_body fd)
-                && opt_ty_eqb (infer cx (fd_result fd)) (fd_ret fd))%bool
+                && opt_ty_eqb (infer cx (fd_result fd)) (fd_ret fd)
+                && store_ok (fd_ret fd) (fd_result fd))%bool
   | None => false
   end.
 
@@ -323,8 +459,11 @@ Fixpoint funs_of (p : prog) : list fundef :=
 Fixpoint check_items (G : list (ty * bool)) (F : list fundef) (ng nf : nat) (p : prog) : bool :=
   match p with
   | [] => true
-  | IConst t e :: r | IVar t e :: r =>
-      (opt_ty_eqb (infer (top_ctx G F ng nf) e) t && check_items G F (S ng) nf r)%bool
+  | IConst t e :: r =>
+      (opt_ty_eqb (infer (top_ctx G F ng nf) e) t
+       && (negb (is_rec t) || sharable (top_ctx G F ng nf) e) && check_items G F (S ng) nf r)%bool
+  | IVar t e :: r =>
+      (opt_ty_eqb (infer (top_ctx G F ng nf) e) t && store_ok t e && check_items G F (S ng) nf r)%bool
   | IFun fd :: r =>
       (Nat.eqb (fd_nglob fd) ng && check_fun G F nf fd && check_items G F ng (S nf) r)%bool
   | IStmt s :: r =>
